@@ -261,6 +261,8 @@ def run_case(desc, ctx):
     pop = {True: 'flank', 'palin': 'palin'}.get(desc.get('flank'), 'plain')
     res.count('planted', len(indels))
     res.count('planted:' + pop, len(indels))
+    stratum = 'threads=%d,indels=%d' % (desc['threads'], len(indels))
+    res.count('planted:' + stratum, len(indels))
     res.count('insertions', sum(1 for x in indels if x[1] == 'ins'))
     res.count('deletions', sum(1 for x in indels if x[1] == 'del'))
     matched = set()
@@ -315,6 +317,7 @@ def run_case(desc, ctx):
             matched.add(m)
     res.count('reported_planted', len(matched))
     res.count('reported_planted:' + pop, len(matched))
+    res.count('reported_planted:' + stratum, len(matched))
     res.nontrivial.append(fingerprint([k, ss]))
     if res.sample is None:
         res.sample = {'k': k, 'samples': ns, 'ancestor_length': len(anc), 'indels': indels, 'carriers': carriers, 'records': [r[:4] for r in recs]}
@@ -331,9 +334,10 @@ def finalize(tier, counters, sets):
         out.append({'signature': 'C18:recall', 'what': 'only %d of %d planted indels reported (%.1f%% < 90%%)' % (found, planted, 100.0 * found / planted),
                     'detail': None})
     # the same statistic on each population of inputs (random indels; indels that repeat their flank), when large enough
-    for pop in ('plain', 'flank', 'palin'):
+    strata = sorted(x[len('planted:'):] for x in counters if x.startswith('planted:threads='))
+    for pop in ['plain', 'flank', 'palin'] + strata:
         pl, fo = counters.get('planted:' + pop, 0), counters.get('reported_planted:' + pop, 0)
-        if pl >= 500 and fo * 10 < pl * 9:
+        if pl >= (500 if pop in ('plain', 'flank', 'palin') else 300) and fo * 10 < pl * 9:
             out.append({'signature': 'C18:recall:' + pop, 'what': 'only %d of %d planted %s indels reported (%.1f%% < 90%%)' % (fo, pl, pop, 100.0 * fo / pl),
                         'detail': None})
     return out, []
